@@ -13,6 +13,8 @@ import (
 	"net/url"
 	"sort"
 	"strings"
+	"sync"
+	"sync/atomic"
 )
 
 const none = "-" // Apq!None
@@ -179,7 +181,17 @@ type conc struct {
 	rText  map[string]string
 	rHash  map[string]string
 	Method string // POST | GET | mix
+	// history-dependent wrong hashes: a generic wrong hash sent together with a
+	// text is, every other time, the SHA-256 of (text of the previous request of
+	// this client ++ this text) - the digest a hasher that carried state over
+	// from the previous request would compute. Still a hash no text of the
+	// alphabet hashes to; registered in rHash under the abstract name it stands for.
+	hmu      *sync.Mutex
+	lastText string
 }
+
+// carryHashes counts the history-dependent wrong hashes sent (all histories).
+var carryHashes int64
 
 var fieldOf = map[string]string{"q1": "a", "q2": "b", "q3": "c", "q4": "d", "q5": "e", "q6": "f"}
 
@@ -203,7 +215,7 @@ func newConc(rnd *rand.Rand, texts, valid []string, wrong []string, method strin
 
 func newConcTwin(rnd *rand.Rand, texts, valid []string, wrong []string, method, twinKind string) *conc {
 	c := &conc{rnd: rnd, Text: map[string]string{}, Field: map[string]string{}, Sig: map[string]string{}, Hash: map[string]string{},
-		rText: map[string]string{}, rHash: map[string]string{}, Method: method, Twin: twinKind}
+		rText: map[string]string{}, rHash: map[string]string{}, Method: method, Twin: twinKind, hmu: &sync.Mutex{}}
 	hasTwin := map[string]bool{}
 	for _, t := range texts {
 		if isTwin(t) {
@@ -305,6 +317,8 @@ func (c *conc) absText(s string) string {
 }
 
 func (c *conc) absHash(s string) string {
+	c.hmu.Lock()
+	defer c.hmu.Unlock()
 	if h, ok := c.rHash[s]; ok {
 		return h
 	}
@@ -319,6 +333,20 @@ func jstr(s string) string {
 // extJSON renders the value of "extensions" for a request ("" = leave it out).
 func (c *conc) extJSON(r AReq, get bool) string {
 	h := c.Hash[r.Hash]
+	if r.Ext == "pq" && r.Ver == "1" && r.Text != "" && c.lastText != "" && len(h) == 64 &&
+		!strings.HasPrefix(r.Hash, "h:") && !strings.HasPrefix(r.Hash, "u:") && r.Hash != "x:empty" && c.rnd.Intn(2) == 0 {
+		cat := sha(c.lastText + c.Text[r.Text])
+		c.hmu.Lock()
+		if _, dup := c.rHash[cat]; !dup {
+			c.rHash[cat] = r.Hash
+			h = cat
+			atomic.AddInt64(&carryHashes, 1)
+		} else if c.rHash[cat] == r.Hash {
+			h = cat
+			atomic.AddInt64(&carryHashes, 1)
+		}
+		c.hmu.Unlock()
+	}
 	hashField := func() string {
 		if r.Hash == "x:empty" && c.rnd.Intn(2) == 0 {
 			return "" // sha256Hash absent
@@ -403,6 +431,11 @@ func (c *conc) wire(r AReq) wire {
 		m = []string{"POST", "GET"}[c.rnd.Intn(2)]
 	}
 	text := c.Text[r.Text] // "" for NoText
+	defer func() {
+		if text != "" {
+			c.lastText = text
+		}
+	}()
 	if m == "GET" {
 		ext := c.extJSON(r, true)
 		q := url.Values{}
